@@ -131,7 +131,9 @@ def breakages(cfg):
 
 def to_doc(cfg):
     # every task leaves a mark: running a pipeline runs the tasks of the pipelines it includes too
-    return {"tasks": {t: {"command": ['touch "$PROJ/ran.%s"' % t]} for t in cfg["tasks"]}, "pipelines": cfg["pipelines"], "watchers": cfg["watchers"]}
+    # (every other task is SHOWN under a name of its own: references go by the key it is defined under)
+    return {"tasks": {t: dict({"command": ['touch "$PROJ/ran.%s"' % t]}, **({"name": "shown-as-" + t} if k % 2 else {})) for k, t in enumerate(cfg["tasks"])},
+            "pipelines": cfg["pipelines"], "watchers": cfg["watchers"]}
 
 
 def tasks_of(cfg, p, seen=()):
